@@ -120,3 +120,29 @@ def trace_classes(prog, trace):
         if last[5][2]:
             cl.add("jal")
     return cl
+
+
+# ----------------------------------------------------------------------------- five-stage helpers
+
+def pipe_extra(sim):
+    """[latch addresses (IF..WB), stalled] — the model's sx_pstate tail"""
+    p = sim.state.pipeline
+    lat = [[] if r.address_of_instruction is None else [r.address_of_instruction] for r in p.pipeline_registers]
+    return [lat, list(p.stalled) if p.stalled is not None else []]
+
+
+def retired(trace):
+    """addresses in latch W after each step (retirement order) with the step index"""
+    out = []
+    for k, o in enumerate(trace[1:], 1):
+        if len(o) >= 10 and o[8][4]:
+            out.append((o[8][4][0], k))
+    return out
+
+
+def final_state(trace):
+    """last state observation of a trace and its terminal record"""
+    t = trace[-1]
+    if t[0] == 1:
+        return t[2], t
+    return trace[-2], t
